@@ -15,7 +15,7 @@ var (
 	reHour1T   = regexp.MustCompile(`^([0-9]):`)
 	reHour1DT  = regexp.MustCompile(`T([0-9]):`)
 	reCommaFr  = regexp.MustCompile(`(:[0-9]{2}),([0-9])`)
-	reSignedFr = regexp.MustCompile(`(:[0-9]{2}\.)[+-]([0-9]{8})`)
+	reSignedFr = regexp.MustCompile(`(:[0-9]{2})[.,][+-]([0-9]{8})`)
 	reTZTail   = regexp.MustCompile(`([+-])([0-9]{2}):([0-9]{2})$`)
 	reFracNZ   = regexp.MustCompile(`:[0-9]{2}\.[0-9]*[1-9]`)
 	reYearHead = regexp.MustCompile(`^(-|[0-9]{5,})`)
@@ -41,7 +41,7 @@ func timeRepair(t *xtype, s string) (string, []string) {
 			ks = append(ks, "time-fraction-comma")
 		}
 		if reSignedFr.MatchString(s) {
-			s = reSignedFr.ReplaceAllString(s, "${1}0$2")
+			s = reSignedFr.ReplaceAllString(s, "${1}.0$2")
 			ks = append(ks, "time-fraction-signed")
 		}
 	}
